@@ -550,7 +550,8 @@ def corrupt_bytes(t, good, nbatch):
 def run_c08(ctx):
     """reported progress == batches that really finished, over histories"""
     deep = ctx.params.get("tier") == "thorough"
-    m = CropMachine(ctx, max_n=24, max_batches=8, name_choice=True)
+    m = CropMachine(ctx, max_n=24, max_batches=8, name_choice=True,
+                    world_cfg={"mtime_granularity": "tape"})
     t = ctx.tape
     m.sow()
     model = ProgressModel(m)
@@ -572,7 +573,13 @@ def run_c08(ctx):
             b = t.pick(sorted(model.all), "poison-batch")
             k = t.pick(model.keys[b], "poison-setting")
             calllog.POISON.add(k)
-            ctx.t("poison", b, k)
+            # what a failing user function raises is its business - also exceptions that
+            # iteration protocols give a meaning to
+            exc_name = t.weighted([("FnError", 3), ("StopIteration", 1), ("KeyError", 1), ("ValueError", 1)],
+                                  "poison-exc")
+            calllog.POISON_EXC[0] = {"FnError": None, "StopIteration": StopIteration,
+                                     "KeyError": KeyError, "ValueError": ValueError}[exc_name]
+            ctx.t("poison", b, k, exc_name)
             continue
         elif op == "unpoison":
             calllog.POISON.clear()
@@ -778,7 +785,8 @@ def run_c09(ctx):
 
     kinds = [("scalar", 5), ("tuple2", 2), ("array", 2), ("bool", 1), ("str", 1),
              ("dict", 1), ("int", 1), ("ndarray", 1), ("intarray", 1), ("npscalar", 1), ("complex", 1)]
-    m = CropMachine(ctx, kinds=kinds, max_n=30, max_batches=7)
+    m = CropMachine(ctx, kinds=kinds, max_n=30, max_batches=7,
+                    world_cfg={"mtime_granularity": "tape"})
     t = ctx.tape
     m.sow()
     sw = m.sc.sweep
